@@ -49,10 +49,11 @@ finally:
     assert sh("git -C /repo status --porcelain").stdout.strip() == "", "/repo not restored"
 dst = os.path.join(VERIF, "seeded", name)
 os.makedirs(dst, exist_ok=True)
-shutil.copy(patch, os.path.join(dst, "patch.diff"))
-shutil.copy(demo, os.path.join(dst, "demo.py"))
-if os.path.exists(os.path.join(src, "notes.md")):
-    shutil.copy(os.path.join(src, "notes.md"), os.path.join(dst, "notes.md"))
+if os.path.abspath(src) != os.path.abspath(dst):
+    shutil.copy(patch, os.path.join(dst, "patch.diff"))
+    shutil.copy(demo, os.path.join(dst, "demo.py"))
+    if os.path.exists(os.path.join(src, "notes.md")):
+        shutil.copy(os.path.join(src, "notes.md"), os.path.join(dst, "notes.md"))
 meta["needs"] = open(os.path.join(src, "notes.md")).read()[:1500] if os.path.exists(os.path.join(src, "notes.md")) else ""
 meta["caught_by"] = [c for c, r in meta.get("checks", {}).items() if r["exit"] != 0]
 # first violation of every check that carries a failing input (not a broken tie only)
